@@ -4,6 +4,7 @@ import (
 	"context"
 	"maps"
 	"slices"
+	"strconv"
 
 	"github.com/dpb587/rdfkit-go/rdf"
 	"github.com/dpb587/rdfkit-go/rdf/blanknodes"
@@ -46,7 +47,10 @@ func Canonicalize(ctx context.Context, input rdf.QuadIterator, options ...Canoni
 //
 
 type identifierIssuer struct {
+	// stringer names the identifiers of the canonical issuer. Temporary issuers leave it nil and issue prefix followed
+	// by their own counter, so that a copy of an issuer continues independently of the issuer it was copied from.
 	stringer         blanknodes.StringProvider
+	prefix           string
 	knownIdentifiers map[rdf.BlankNodeIdentifier]string
 	issuedOrder      []rdf.BlankNodeIdentifier
 }
@@ -58,6 +62,18 @@ func (i *identifierIssuer) GetBlankNodeStringIfKnown(bni rdf.BlankNodeIdentifier
 }
 
 func (i *identifierIssuer) GetBlankNodeString(bni rdf.BlankNodeIdentifier) string {
+	if i.stringer == nil {
+		id, ok := i.knownIdentifiers[bni]
+		if !ok {
+			id = i.prefix + strconv.Itoa(len(i.issuedOrder))
+
+			i.issuedOrder = append(i.issuedOrder, bni)
+			i.knownIdentifiers[bni] = id
+		}
+
+		return id
+	}
+
 	id := i.stringer.GetBlankNodeString(rdf.BlankNode{
 		Identifier: bni,
 	})
@@ -73,6 +89,7 @@ func (i *identifierIssuer) GetBlankNodeString(bni rdf.BlankNodeIdentifier) strin
 func (i *identifierIssuer) Clone() identifierIssuer {
 	return identifierIssuer{
 		stringer:         i.stringer,
+		prefix:           i.prefix,
 		knownIdentifiers: maps.Clone(i.knownIdentifiers),
 		issuedOrder:      slices.Clone(i.issuedOrder),
 	}
